@@ -6,6 +6,10 @@
      OBIMimeTypeGuesser     ReadFull of the sniff buffer               [sniff]
      ReadSeqFileChunk       the two nested loops, flattened            [chunk_loop, chunker]
      ReadSequencesFromFile / command exit status                       [pipeline, command_outcome]
+     xzStreamEnd / xzTruncationReporter (round 2)                      [xz_byte, xz_track, footer_ok, index_ok, xz_guard]
+     readers with a read schedule: source, bytes.Reader, io.MultiReader, bufio.Reader; io.ReadFull as a loop of Read
+     calls; OBIMimeTypeGuesser on readers (detection on the whole zero padded buffer, MultiReader replay)  [reader, read,
+     den, readfull_s, sniff_s, drain] (round 2)
    Both the original (defective) error handling ( *_orig ) and the repaired one are kept.
    Bytes are N. The record splitter and the format detector are parameters (the concrete
    EndOfLastFastaEntry is transcribed below: fasta_split). *)
@@ -261,3 +265,205 @@ Fixpoint mismatches_from (i : nat) (l : list case) : list nat :=
   end.
 
 Definition mismatches (l : list case) : list nat := mismatches_from 0 l.
+
+(* ================================================================ round 2 ================================================================ *)
+(* ---------------------------------------------------------------- xzStreamEnd / xzTruncationReporter *)
+Definition lastn {A} (n : nat) (l : list A) : list A := skipn (length l - n) l.
+
+(* state of xzStreamEnd: the (at most 12) last bytes which precede the trailing run of zero bytes, and the length of that run *)
+Record xzend := mkx { x_last : list N; x_zeros : nat }.
+
+Definition xz_byte (W : nat) (st : xzend) (c : N) : xzend :=
+  if c =? 0 then mkx (x_last st) (S (x_zeros st))
+  else mkx (lastn W (x_last st ++ repeat 0 (Nat.min (x_zeros st) W) ++ [c])) 0.
+
+(* one Read call hands over one chunk *)
+Definition xz_chunk (W : nat) (st : xzend) (ch : list N) : xzend := fold_left (xz_byte W) ch st.
+Definition xz_track_w (W : nat) (chunks : list (list N)) : xzend := fold_left (xz_chunk W) chunks (mkx [] 0).
+
+(* CRC-32 (IEEE), bit by bit *)
+Fixpoint crc_bits (k : nat) (c : N) : N :=
+  match k with
+  | O => c
+  | S k' => crc_bits k' (if N.testbit c 0 then N.lxor (N.shiftr c 1) 3988292384 else N.shiftr c 1)
+  end.
+Definition crc_byte (c b : N) : N := crc_bits 8 (N.lxor c b).
+Definition crc32 (l : list N) : N := N.lxor (fold_left crc_byte l 4294967295) 4294967295.
+
+(* stream footer: CRC32 of the next 6 bytes (little endian) | backward size (4) | stream flags (2) | 'Y' 'Z' *)
+Definition footer_ok (f : list N) : bool :=
+  match f with
+  | [c0; c1; c2; c3; b0; b1; b2; b3; f0; f1; m0; m1] =>
+      (m0 =? 89) && (m1 =? 90) && (crc32 [b0; b1; b2; b3; f0; f1] =? c0 + 256 * (c1 + 256 * (c2 + 256 * c3)))
+  | _ => false
+  end.
+
+Definition le32 (l : list N) : N :=
+  match l with [c0; c1; c2; c3] => c0 + 256 * (c1 + 256 * (c2 + 256 * c3)) | _ => 0 end.
+
+(* the index the footer points to (backward size), when it lies inside the window: indicator 0x00 ... CRC32 *)
+Definition index_ok (t : list N) : bool :=
+  match lastn 12 t with
+  | [_; _; _; _; b0; b1; b2; b3; _; _; _; _] =>
+      let sizeN := (le32 [b0; b1; b2; b3] + 1) * 4 in
+      if 12 + sizeN <=? N.of_nat (length t) then
+        let size := N.to_nat sizeN in
+        let idx := firstn size (lastn (12 + size) t) in
+        match idx with
+        | 0 :: _ => crc32 (firstn (size - 4) idx) =? le32 (skipn (size - 4) idx)
+        | _ => false
+        end
+      else true
+  | _ => false
+  end.
+
+(* verdict from the window (the last W bytes before the trailing zeros) and the number of trailing zeros *)
+Definition complete_of (t : list N) (zeros : nat) : bool :=
+  if footer_ok (lastn 12 t) then (if index_ok t then (Nat.modulo zeros 4 =? 0)%nat else false) else false.
+
+Definition xz_complete_st (st : xzend) : bool := complete_of (x_last st) (x_zeros st).
+Definition XZW : nat := N.to_nat 65536.       (* xzTailWindow *)
+Definition xz_track := xz_track_w XZW.
+
+(* specification: the bytes before the trailing zeros, the number of trailing zeros *)
+Fixpoint tz_rev (rl : list N) : nat := match rl with 0 :: t => S (tz_rev t) | _ => O end.
+Definition tz (l : list N) : nat := tz_rev (rev l).
+Definition body (l : list N) : list N := firstn (length l - tz l) l.
+Definition xz_complete_w (W : nat) (raw : list N) : bool := complete_of (lastn W (body raw)) (tz raw).
+Definition xz_complete := xz_complete_w XZW.
+
+(* xzTruncationReporter: the library's io.EOF is accepted only at a complete stream *)
+Definition xz_guard (raw : list N) (lib : rfin) : rfin :=
+  match lib with
+  | REof => if xz_complete raw then REof else RUnexpectedEof
+  | f => f
+  end.
+
+(* the 12 bytes stream header of an xz file produced by `xz`, nothing after it *)
+Definition xz_header_only : list N := [253;55;122;88;90;0;0;4;230;214;180;70].
+(* the complete container of the empty text *)
+Definition xz_empty_container : list N :=
+  [253;55;122;88;90;0;0;4;230;214;180;70;0;0;0;0;28;223;68;33;31;182;243;125;1;0;0;0;0;4;89;90].
+
+
+(* ---------------------------------------------------------------- readers with a read schedule *)
+Inductive reader :=
+| RBytes (l : list N)                                           (* bytes.NewReader(buf[:n]) *)
+| RSrc (d : list N) (sch : list nat) (f : ferr) (eager : bool)  (* file / decompressor: d then f; the i-th Read hands over at most
+                                                                   S (nth i sch) bytes; eager: f comes together with the last bytes *)
+| RMulti (a b : reader)                                         (* io.MultiReader(a, b) *)
+| RBuf (bs : nat) (buf : list N) (pend : option ferr) (u : reader).   (* bufio.Reader of size bs: unread bytes, pending b.err *)
+
+(* Read(p) with len(p) = S k: bytes, error (None = nil), the reader afterwards *)
+Fixpoint read (k : nat) (r : reader) : list N * option ferr * reader :=
+  match r with
+  | RBytes [] => ([], Some FEof, r)
+  | RBytes l => (firstn (S k) l, None, RBytes (skipn (S k) l))
+  | RSrc [] _ f _ => ([], Some f, r)
+  | RSrc d sch f eager =>
+      let m := Nat.min (S k) (match sch with [] => S k | s :: _ => S s end) in
+      match skipn m d with
+      | [] => (firstn m d, if eager then Some f else None, RSrc [] (tl sch) f eager)
+      | d' => (firstn m d, None, RSrc d' (tl sch) f eager)
+      end
+  | RMulti a b =>
+      let '(x, e, a') := read k a in
+      match e with
+      | Some FEof => match x with [] => read k b | _ => (x, None, b) end
+      | _ => (x, e, RMulti a' b)
+      end
+  | RBuf bs buf pend u =>
+      match buf with
+      | _ :: _ => (firstn (S k) buf, None, RBuf bs (skipn (S k) buf) pend u)
+      | [] =>
+          match pend with
+          | Some f => ([], Some f, RBuf bs [] None u)
+          | None =>
+              if (bs <=? S k)%nat then let '(x, e, u') := read k u in (x, e, RBuf bs [] None u')
+              else let '(x, e, u') := read (Nat.pred bs) u in
+                   match x with
+                   | [] => ([], e, RBuf bs [] None u')
+                   | _ => (firstn (S k) x, None, RBuf bs (skipn (S k) x) e u')
+                   end
+          end
+      end
+  end.
+
+(* the byte stream a reader stands for: all its bytes, how it ends *)
+Fixpoint den (r : reader) : list N * ferr :=
+  match r with
+  | RBytes l => (l, FEof)
+  | RSrc d _ f _ => (d, f)
+  | RMulti a b => let '(x, f) := den a in
+                  match f with FEof => let '(y, g) := den b in (x ++ y, g) | _ => (x, f) end
+  | RBuf _ buf pend u => match pend with
+                         | Some f => (buf, f)
+                         | None => let '(y, g) := den u in (buf ++ y, g)
+                         end
+  end.
+Definition den_stream (r : reader) : rstream := mkr (fst (den r)) (snd (den r)).
+
+(* a pending error of a bufio.Reader is the error of its exhausted source *)
+Fixpoint wf (r : reader) : Prop :=
+  match r with
+  | RBytes _ | RSrc _ _ _ _ => True
+  | RMulti a b => wf a /\ wf b
+  | RBuf _ _ pend u => wf u /\ match pend with Some f => den u = ([], f) | None => True end
+  end.
+
+(* io.ReadFull(r, buf) with len(buf) = k, n bytes already read into acc *)
+Definition is_nil {A} (l : list A) : bool := match l with [] => true | _ => false end.
+Fixpoint readfull_s (fuel k : nat) (acc : list N) (r : reader) : list N * reader * rerr :=
+  match k with
+  | O => (acc, r, ENil)
+  | S k' =>
+      match fuel with
+      | O => (acc, r, EOther)
+      | S fu =>
+          let '(x, e, r') := read k' r in
+          match e with
+          | None => readfull_s fu (k - length x) (acc ++ x) r'
+          | Some f => if (k <=? length x)%nat then (acc ++ x, r', ENil)
+                      else (acc ++ x, r', end_error f (is_nil (acc ++ x)))
+          end
+      end
+  end.
+
+(* OBIMimeTypeGuesser: the detector sees the whole buffer (mimetype.Detect(buf), zero padded), the parser reads
+   MultiReader(bytes.NewReader(buf[:n]), stream) when the buffer was filled, bytes.NewReader(buf[:n]) otherwise *)
+Definition sniff_s (sn : nat) (r : reader) : option (list N * reader) :=
+  let '(a, r', e) := readfull_s sn sn [] r in
+  let seen := a ++ repeat 0 (sn - length a) in
+  match e with
+  | ENil => Some (seen, RMulti (RBytes a) r')
+  | EUnexpectedEof => Some (seen, RBytes a)
+  | _ => None
+  end.
+
+(* a consumer which reads with any request sizes until the first error *)
+Fixpoint drain (fuel : nat) (ks : list nat) (r : reader) : list N * option ferr :=
+  match fuel with
+  | O => ([], None)
+  | S fu =>
+      let '(x, e, r') := read (hd O ks) r in
+      match e with
+      | Some f => (x, Some f)
+      | None => let '(y, g) := drain fu (tl ks) r' in (x ++ y, g)
+      end
+  end.
+
+
+(* ---------------------------------------------------------------- correspondence: the xz end-of-stream guard *)
+(* raw: the bytes of the (damaged) container; lib_open / lib_fin: what the xz library alone does with them (harness route
+   xzlib); obs_eof: through xopen.Buf the stream ends with a clean EOF (an empty file counts as such) *)
+Record xzcase := mkxz { z_raw : list N; z_open : bool; z_lib : rfin; z_eof : bool }.
+
+Definition xz_model_eof (c : xzcase) : bool :=
+  z_open c && match xz_guard (z_raw c) (z_lib c) with REof => true | _ => false end.
+
+Fixpoint xz_mismatches_from (i : nat) (l : list xzcase) : list nat :=
+  match l with
+  | [] => []
+  | c :: t => if Bool.eqb (xz_model_eof c) (z_eof c) then xz_mismatches_from (S i) t else i :: xz_mismatches_from (S i) t
+  end.
+Definition xz_mismatches (l : list xzcase) : list nat := xz_mismatches_from 0 l.
